@@ -490,7 +490,9 @@ def run(ctx):
     # names bound to tuple-valued sources must resolve through Name lookups too
     ns = prog.func("pptx.parts.image", "ImagePart._native_size")
     # allow `image = Image.from_blob(self._blob)` style locals: image.dpi / image.size are in TUPLES by text
-    r = comp_deps(ns.node, TUPLES)
+    from sa.desugar import desugar as _ds15
+
+    r = comp_deps(_ds15(ns.node), TUPLES)   # (canonical form: component-wise pipelines are written out per component)
 
     def flat(x):
         return x if isinstance(x, set) else set()
@@ -501,6 +503,9 @@ def run(ctx):
         w, h = flat(r[0]), flat(r[1])
         if w == {("dpi", 0), ("px", 0)} and h == {("dpi", 1), ("px", 1)}:
             ctx.ok("R15.4", "ImagePart._native_size", sample={"width_from": sorted(w), "height_from": sorted(h)})
+        elif not w or not h:
+            # nothing traced to the image's dpi / pixel size: the computation is not understood (no counter-fact)
+            ctx.error("ImagePart._native_size", "the dependencies of the returned width / height on (dpi, pixel size) were not traced")
         else:
             ctx.violation("R15.4", "ImagePart._native_size", "native width depends on %s and height on %s; expected (horizontal dpi, pixel width) and "
                           "(vertical dpi, pixel height): an image with different horizontal and vertical resolution gets the wrong aspect ratio"
